@@ -18,7 +18,8 @@ theorem size_is_sectors (w : World) (root : Path) (ps3 : Bool) (clk : Clock) (fl
     subst h
     refine ⟨L, rfl, rfl, by simp [imageOf, Proof.Viso.sectorSize_eq], ?_⟩
     have hv : L.volSectors = L.volumeSize + L.padSectors := by
-      unfold layoutOf at hL
+      have hL := (layoutOf_some hL).1
+      unfold layoutRaw at hL
       split at hL
       · split at hL
         · simp at hL
